@@ -385,6 +385,8 @@ Json::Value gen() {
       }
     }
   }
+  // kernfs-style 64-bit cgroup identities (generation in the upper half, slot recycled per path)
+  if (P(25)) sc["virt_ino"] = true;
   return sc;
 }
 
